@@ -27,7 +27,7 @@ def generate(rng, tier):
                           p_helper=0.15, p_tabs=rng.choice([0.0, 0.3]), p_ps2=rng.choice([0.2, 0.5, 0.8]))
     cfg['n_modules'] = (1, 3)
     cfg['n_funcs'] = (1, 3)
-    cfg['forms'] = list(gen.SIMPLE_FORMS) + ['strdirective', 'tryexc', 'emitop', 'emitnoeol', 'writeout', 'writeout', 'const', 'modsay', 'tqdirective']
+    cfg['forms'] = list(gen.SIMPLE_FORMS) + ['strdirective', 'tryexc', 'emitop', 'emitnoeol', 'writeout', 'writeout', 'const', 'modsay', 'tqdirective', 'annot', 'emitcr', 'strsemi', 'strsemi']
     if rng.random() < 0.5:
         # names that also exist at module level of the module under test: rebound,
         # shadowed, deleted and read back across part boundaries
